@@ -32,7 +32,7 @@ RULE = ("pipelines {elementwise chain, 2-D outer product chain, tuple-output zip
         "non-mapped function} x storage {file_array, dict+persist} x selectors = every int in [-n,n) and every slice over start/stop in {None,-n..n} x step in {None,+-1,+-2} "
         "with a non-empty selection (deduplicated to distinct index sequences, two spellings each); BFS states = sets of present elements; for two independent axes the "
         "product of their selectors. Learners: fixed_indices None/each selector class, split_independent_axes F/T, return_output F/T, all unit orders within a generation "
-        "(<= 4 units: all permutations; more: identity, reversal and all rotations). Rejections: reduced axis, unknown axis, out-of-range int")
+        "(<= 4 units: all permutations; more: identity, reversal and all rotations). Rejections: reduced axis, unknown axis, out-of-range int. Part D: for three pipelines x {shared_memory_dict, file_array} the two pieces of the first axis, in both orders, on a REAL process pool (one free-running schedule each)")
 ASSUMPTIONS = ["reference = MapSpec denotation (vmc/gen_map.py) restricted to the selected external indices",
                "learners are executed through learner.ask/tell with the learner's own function, as adaptive's simple runner does, but in every order",
                "learner runs use file_array storage (memory storages are only persisted by run_map itself)"]
@@ -170,6 +170,60 @@ def expected_after(spec, prev, fixed):
         for o in fn["outs"]:
             new[o] = frozenset(prev.get(o, frozenset()) | sel)
     return new
+
+
+def check_pool_pieces(cfg):
+    """Part D: the pieces of one axis run one after the other on a REAL process pool (fork) into one folder; after every
+    piece the folder must hold exactly the selected elements, and at the end the values of the full run"""
+    import concurrent.futures as cf
+    import multiprocessing
+    from pipefunc.map import load_outputs
+    from . import c03
+    c03._install_one_manager()
+    spec = PIPES[cfg["pipe"]]
+    storage = cfg["storage"]
+    base = boot.mkscratch("c06d-")
+    folder = os.path.join(base, "run")
+    out = []
+    sigbase = {"pipe": cfg["pipe"], "storage": storage, "part": "D"}
+    pool = cf.ProcessPoolExecutor(2, mp_context=multiprocessing.get_context("fork"))
+    try:
+        inputs = gen_map.make_inputs(spec, "list")
+        exp, _ = gen_map.ref_map(spec, inputs)
+        ax = spec["axes"][0]
+        n = spec["sizes"][ax]
+        pieces = [{ax: sel_json(slice(0, n - 1))}, {ax: n - 1}] if not cfg.get("reverse") else [{ax: n - 1}, {ax: sel_json(slice(0, n - 1))}]
+        prev = {}
+        p = gen_map.build(spec)
+        for k, fixed in enumerate(pieces):
+            try:
+                with contextlib.redirect_stdout(io.StringIO()), warnings.catch_warnings():
+                    warnings.simplefilter("ignore")
+                    p.map(dict(inputs), run_folder=folder, internal_shapes=gen_map.internal_shapes_arg(spec), parallel=True, executor=pool,
+                          storage=storage, cleanup=(k == 0), fixed_indices={a: sel_from(s_) for a, s_ in fixed.items()})
+            except Exception as e:  # noqa: BLE001
+                return [(findings.exc_sig(e, **sigbase, piece=k), f"{cfg}: piece {k} {fixed} on a process pool raised {type(e).__name__}: {str(e)[:120]}")]
+            want = expected_after(spec, prev, fixed)
+            got = present_state(spec, folder, storage)
+            mapped = [o for fn in spec["funcs"] if fn["ms"] for o in fn["outs"]]
+            bad = [o for o in mapped if got.get(o) != want.get(o)]
+            if bad:
+                out.append(({"kind": "present-set", **sigbase, "piece": k},
+                            f"{cfg}: after piece {k} {fixed} on a process pool the folder holds {[(o, sorted(got[o])) for o in bad]}, expected {[(o, sorted(want[o])) for o in bad]}"))
+                return out
+            prev = want
+        for fn in spec["funcs"]:
+            if not fn["ms"]:
+                continue
+            for o in fn["outs"]:
+                with contextlib.redirect_stdout(io.StringIO()):
+                    lo = load_outputs(o, run_folder=folder)
+                if terms.T(lo) != terms.T(exp[o]):
+                    out.append(({"kind": "stored-mismatch", **sigbase}, f"{cfg}: after all pieces load_outputs({o}) = {terms.T(lo)[:100]}, full run {terms.T(exp[o])[:100]}"))
+        return out
+    finally:
+        pool.shutdown(wait=True)
+        shutil.rmtree(base, ignore_errors=True)
 
 
 def build_template(cfg, hist, folder):
@@ -502,6 +556,10 @@ def plan(tier, seed):
                         continue
                     cfg = {"pipe": pipe, "split": split, "ret": ret, "fixed": fx}
                     units.append(("B-learners-all-unit-orders", ("B", cfg)))
+    for pipe in ("chain", "outer2d", "tuple-zip"):
+        for storage in ("shared_memory_dict", "file_array"):
+            for rev in (False, True):
+                units.append(("D-pieces-on-a-real-process-pool", ("D", {"pipe": pipe, "storage": storage, "reverse": rev})))
     by = {}
     for st, u in units:
         by.setdefault(st, []).append((st, u))
@@ -545,6 +603,15 @@ def run_unit(unit):
         acc.stratum("B-executions", n)
         if cfg["split"] and not cfg["ret"]:
             acc.sample({"part": "B", "cfg": cfg, "orders_per_generation": counts})
+    elif kind == "D":
+        _, cfg = unit
+        acc.case(hash(str(cfg)))
+        acc.states += 2
+        acc.transitions += 2
+        acc.traces += 1
+        acc.stratum("D-process-pool-pieces")
+        for sig, text in check_pool_pieces(cfg):
+            acc.violation(sig, {"part": "D", "cfg": cfg}, text)
     elif kind == "C":
         _, cfg = unit
         for fixed, why in rejection_cases(cfg["pipe"]):
@@ -562,6 +629,8 @@ def replay(art):
     if art["part"] == "A":
         vs, _ = check_part(art["cfg"], art["hist"], art["fixed"])
         return [s for s, _ in vs]
+    if art["part"] == "D":
+        return [s for s, _ in check_pool_pieces(art["cfg"])]
     if art["part"] == "B":
         vs, _ = run_learners(art["cfg"], art["order"])
         return [s for s, _ in vs]
